@@ -1,6 +1,9 @@
 import UgoVerif.Proofs.CompileEnc
 import UgoVerif.Gen.Limits
 import UgoVerif.Gen.Opcodes
+import UgoVerif.Gen.SymFacts
+import UgoVerif.Model.Eval
+import UgoVerif.Proofs.VMRun
 /-
   C05 — Compile is total: bytecode or an error for any input, never a panic.
 
@@ -115,29 +118,71 @@ example : ∀ s, ∃ m, runCM (emit 7 OpDefineLocal [256]) s = (.error (.err 7 m
 
 /-! ### no panic -/
 
-/-- **Compile never panics** (model, optimizer off): for every builtin table, every set of disabled
-    builtins and every AST whose assignment statements have a non-empty left-hand side (what the
-    parser produces; `okSs`), `compileFile` — `compileScript` after parsing — returns bytecode or
-    an error.  Termination is the totality of `compileFile`. -/
-theorem compile_no_panic (builtins : List (String × Nat)) (disabled : List String) (file : List Stmt)
-    (hok : okSs file = true) (m : String) : compileFile builtins disabled file ≠ .error (.panic m) := by
-  have h := good_compileProg file hok (initState builtins disabled) (inv_initState builtins disabled)
-  unfold compileFile
+/-- the builtin table handed to the compiler maps names to indices of builtin objects (the Go
+    compiler reads the package-level `BuiltinsMap`; `builtinsMap_ok` below ties the regenerated copy) -/
+def BuiltinsOK (builtins : List (String × Nat)) : Prop := ∀ p ∈ builtins, p.2 < Gen.numBuiltins
+
+instance (builtins : List (String × Nat)) : Decidable (BuiltinsOK builtins) := by unfold BuiltinsOK; exact inferInstance
+
+/-- the regenerated `BuiltinsMap` (Gen/SymFacts.lean) has only indices below the regenerated number
+    of builtin objects, and `:makeArray` — the one index the compiler emits on its own — is one -/
+theorem builtinsMap_ok :
+    (∀ p ∈ Gen.SymFacts.builtinsMap, p.2 < Gen.numBuiltins) ∧ Gen.builtinMakeArray < Gen.numBuiltins ∧
+    Gen.SymFacts.builtinMakeArray = Gen.builtinMakeArray := by decide
+
+/-- `compileProg` from the initial state, as a fact about `compileFile` -/
+theorem compileFile_sat (builtins : List (String × Nat)) (hb : BuiltinsOK builtins) (disabled : List String)
+    (file : List Stmt) (hok : okSs file = true) :
+    match compileFile builtins disabled file with
+    | .ok bc => WFMain bc
+    | .error e => ∀ m, e ≠ .panic m := by
+  have h := sat_compileProg file hok (initState builtins disabled) (inv_initState builtins disabled hb) rfl
+  unfold Sat at h
+  change match (runCM (compileProg file) (initState builtins disabled)).1 with
+    | .ok bc => WFMain bc
+    | .error e => ∀ m, e ≠ .panic m
+  cases hr : runCM (compileProg file) (initState builtins disabled) with
+  | mk r s' =>
+    rw [hr] at h
+    cases r with
+    | ok bc => exact h.2.2
+    | error e =>
+      intro m hm
+      subst hm
+      exact h
+
+/-- **Compile never panics** (model, optimizer off): for every builtin table with valid indices,
+    every set of disabled builtins and every AST whose assignment statements have a non-empty
+    left-hand side (what the parser produces; `okSs`), `compileFile` — `compileScript` after parsing —
+    returns bytecode or an error.  Termination is the totality of `compileFile`. -/
+theorem compile_no_panic (builtins : List (String × Nat)) (hb : BuiltinsOK builtins) (disabled : List String)
+    (file : List Stmt) (hok : okSs file = true) (m : String) : compileFile builtins disabled file ≠ .error (.panic m) := by
+  have h := compileFile_sat builtins hb disabled file hok
+  intro hc
+  rw [hc] at h
+  exact h m rfl
+
+/-- the same from ANY compiler state that satisfies the invariant `Inv` — in particular a re-used
+    symbol table and constant pool (an Eval session), nested tables, pending loops — for the
+    statements of a file (`compileStmts`; `compileProg` adds `Bytecode()`, for which see
+    `compile_no_panic_reused`) -/
+theorem compileStmts_no_panic (s : CState) (hs : Inv s) (file : List Stmt) (hok : okSs file = true) (m : String) :
+    (runCM (compileStmts file) s).1 ≠ .error (.panic m) := by
+  have h := good_compileStmts file hok s hs
   unfold Sat at h
   intro hc
-  change (runCM (compileProg file) (initState builtins disabled)).1 = _ at hc
-  cases hr : runCM (compileProg file) (initState builtins disabled) with
+  cases hr : runCM (compileStmts file) s with
   | mk r s' =>
     rw [hr] at h hc
     simp only at hc
     subst hc
     exact h
 
-/-- the same from ANY compiler state that satisfies the invariant `Inv` — in particular a re-used
-    symbol table and constant pool (an Eval session), nested tables, pending loops -/
-theorem compile_no_panic_reused (s : CState) (hs : Inv s) (file : List Stmt) (hok : okSs file = true) (m : String) :
-    (runCM (compileProg file) s).1 ≠ .error (.panic m) := by
-  have h := good_compileProg file hok s hs
+/-- `compileProg` from any state satisfying `Inv` whose table chain is a root table alone (a re-used
+    symbol table and constant pool: an Eval session) -/
+theorem compile_no_panic_reused (s : CState) (hs : Inv s) (t : Table) (ht : s.tables = [t]) (file : List Stmt)
+    (hok : okSs file = true) (m : String) : (runCM (compileProg file) s).1 ≠ .error (.panic m) := by
+  have h := sat_compileProg file hok s hs ht
   unfold Sat at h
   intro hc
   cases hr : runCM (compileProg file) s with
@@ -148,13 +193,20 @@ theorem compile_no_panic_reused (s : CState) (hs : Inv s) (file : List Stmt) (ho
     exact h
 
 /-- the invariant is re-established by a successful compilation: the next fragment of a session
-    starts from a state satisfying `Inv` again -/
-theorem compile_keeps_invariant (s : CState) (hs : Inv s) (file : List Stmt) (hok : okSs file = true)
-    (bc : Bytecode) (s' : CState) (h : runCM (compileProg file) s = (.ok bc, s')) : Inv s' := by
-  have hg := good_compileProg file hok s hs
+    starts from a state satisfying `Inv` again (and its table chain is again a root table alone) -/
+theorem compile_keeps_invariant (s : CState) (hs : Inv s) (t : Table) (ht : s.tables = [t]) (file : List Stmt)
+    (hok : okSs file = true) (bc : Bytecode) (s' : CState) (h : runCM (compileProg file) s = (.ok bc, s')) :
+    Inv s' ∧ ∃ t', s'.tables = [t'] := by
+  have hg := sat_compileProg file hok s hs ht
   unfold Sat at hg
   rw [h] at hg
-  exact hg.1
+  refine ⟨hg.1, ?_⟩
+  have hle := hg.2.1.chain
+  rw [ht] at hle
+  obtain ⟨t1, r1, h1, _, hle1⟩ := chainLE_cons_left hle
+  cases r1 with
+  | nil => exact ⟨t1, h1⟩
+  | cons a b => exact absurd hle1 (by simp [ChainLE])
 
 /-- non-vacuity: the hypothesis `okSs` is needed — the compiler indexes `lhs[0]` unchecked -/
 example : compileFile [] [] [.assign 1 tAssign [] []] = .error (.panic "runtime error: index out of range [0] with length 0") := rfl
@@ -165,47 +217,158 @@ example : ∃ p m, compileFile [] [] [.expr 1 (.ident 1 "x")] = .error (.err p m
 
 /-! ### well-formedness of the result -/
 
-/-- proved part of the well-formedness of returned bytecode: the main function and every compiled
-    function in the constant pool have at most 256 locals; each of their instruction streams
-    decodes completely into instructions with known opcodes and full operands; and in each stream
-    the operand of every JUMP / JUMPFALSY / ANDJUMP / ORJUMP and both operands of every SETUPTRY
-    are instruction boundaries of that stream (0 for an absent catch); and the constant index of
-    every CONSTANT / CLOSURE instruction is below the size of the constant pool -/
-theorem compile_wf_partial (builtins : List (String × Nat)) (disabled : List String) (file : List Stmt)
-    (hok : okSs file = true) (bc : Bytecode) (h : compileFile builtins disabled file = .ok bc) : WFMain bc := by
-  have hg := goodP_compileProg file hok (initState builtins disabled) (inv_initState builtins disabled)
-  unfold compileFile at h
-  unfold Sat at hg
-  change (runCM (compileProg file) (initState builtins disabled)).1 = _ at h
-  cases hr : runCM (compileProg file) (initState builtins disabled) with
-  | mk r s' =>
-    rw [hr] at hg h
-    simp only at h
-    subst h
-    exact hg.2.2
+/-- an operand read from `w` bytes is below `256 ^ w`: CALL / CALLNAME (1 + 1 bytes), ARRAY / MAP
+    (2 bytes) and every other operand of a decoded instruction is within its width by construction;
+    the compiler side is `emit_limit_is_error` (a count that does not fit is a compile error) -/
+theorem readBE_lt (a : Array UInt8) (i : Nat) : ∀ w, readBE a i w < 256 ^ w
+  | 0 => by simp [readBE]
+  | w + 1 => by
+    have ih := readBE_lt a i w
+    have hb := (a[i + w]?.getD 0).toNat_lt
+    have hstep : readBE a i (w + 1) = readBE a i w * 256 + (a[i + w]?.getD 0).toNat := by
+      simp [readBE, List.range_succ, List.foldl_append]
+    rw [hstep, Nat.pow_succ]
+    have : readBE a i w + 1 ≤ 256 ^ w := ih
+    have := Nat.mul_le_mul_right 256 this
+    omega
 
-/-- The full statement.  `WFFull` asks, beyond `WFMain`: every jump / SETUPTRY operand is an
-    instruction boundary of its function and every constant / local / builtin index is in range (shown
-    here for the main function; likewise for function constants); and the claim covers scanner,
-    parser, optimizer and module import.  Proved: `compile_no_panic` (all of the panic-freedom of the
-    compiler proper), `compile_wf_partial` (frame sizes, decodable streams, jump / try targets are
-    boundaries, CONSTANT / CLOSURE indices are in range, for main and all function constants).  Not
-    proved (checked on real bytecode by the structural scan of stream `compilefuzz`): a jump target
-    is *strictly* inside the stream (the RETURN appended by `Bytecode()`), global-name / local / free /
-    builtin indices are in range; not modelled: scanner / parser / optimizer / imports. -/
+/-- Well-formedness of one compiled function `f` with `nf` free variables against the constant pool
+    `cs`.  `Bd a p`: `p` is the start of an instruction of `a` (reached by decoding from 0, and
+    `p < a.size`); `Walk a 0 t`: `t` is the start of an instruction or the end of the stream. -/
+structure WFFn (cs : Array Const) (nf : Nat) (f : CFn) : Prop where
+  /-- NumParams ≤ NumLocals -/
+  params : f.numParams ≤ f.numLocals
+  /-- the stream decodes completely into instructions with known opcodes and full operands -/
+  decodes : Walk f.insts 0 f.insts.size
+  /-- the last instruction is RETURN -/
+  ret : ∃ q b, Walk f.insts 0 q ∧ f.insts[q]? = some b ∧ b.toNat = OpReturn ∧ q + 1 + opWidth OpReturn = f.insts.size
+  /-- JUMP / JUMPFALSY / ANDJUMP / ORJUMP: the target is the start of an instruction strictly inside the stream -/
+  jump : ∀ p op, Bd f.insts p → f.insts[p]? = some op →
+    (op.toNat = OpJump ∨ op.toNat = OpJumpFalsy ∨ op.toNat = OpAndJump ∨ op.toNat = OpOrJump) →
+    Bd f.insts (readBE f.insts (p + 1) 4)
+  /-- SETUPTRY: both operands are instruction starts (0 for an absent catch) or the end of the stream -/
+  try_ : ∀ p op, Bd f.insts p → f.insts[p]? = some op → op.toNat = OpSetupTry →
+    Walk f.insts 0 (readBE f.insts (p + 1) 4) ∧ Walk f.insts 0 (readBE f.insts (p + 5) 4)
+  /-- GETFREE / SETFREE / GETFREEPTR: the index is below the number of free variables -/
+  free : ∀ p op, Bd f.insts p → f.insts[p]? = some op →
+    (op.toNat = OpGetFree ∨ op.toNat = OpSetFree ∨ op.toNat = OpGetFreePtr) → readBE f.insts (p + 1) 1 < nf
+  /-- GETBUILTIN: the index names a builtin object -/
+  builtin : ∀ p op, Bd f.insts p → f.insts[p]? = some op → op.toNat = OpGetBuiltin →
+    readBE f.insts (p + 1) 1 < Gen.numBuiltins
+  /-- GETGLOBAL / SETGLOBAL: the index names a String constant -/
+  global : ∀ p op, Bd f.insts p → f.insts[p]? = some op → (op.toNat = OpGetGlobal ∨ op.toNat = OpSetGlobal) →
+    ∃ b, cs[readBE f.insts (p + 1) 2]? = some (.val (.str b))
+  /-- CONSTANT: the index is in the pool; a function loaded this way uses no free variable -/
+  const : ∀ p op, Bd f.insts p → f.insts[p]? = some op → op.toNat = OpConstant →
+    readBE f.insts (p + 1) 2 < cs.size ∧ ∀ g, cs[readBE f.insts (p + 1) 2]? = some (.fn g) → FreeBound 0 g.insts
+  /-- CLOSURE i n: constant `i` is a compiled function that uses at most the `n` free variables supplied -/
+  closure : ∀ p op, Bd f.insts p → f.insts[p]? = some op → op.toNat = OpClosure →
+    ∃ g, cs[readBE f.insts (p + 1) 2]? = some (.fn g) ∧ FreeBound (readBE f.insts (p + 3) 1) g.insts
+
+theorem wfFn_of_finFn {cs : Array Const} {nf : Nat} {f : CFn} (h : FinFn cs nf f) : WFFn cs nf f := by
+  obtain ⟨⟨⟨hw, ht⟩, hj, hr⟩, hp⟩ := h
+  refine ⟨hp, hw, hr, ?_, ?_, ?_, ?_, ?_, ?_, ?_⟩
+  · intro p op hbd hop hc
+    have hjo : isJumpOp op.toNat = true := by
+      rcases hc with h | h | h | h <;> rw [h] <;> rfl
+    exact ⟨(ht p op hbd hop).1 hjo, hj p op hbd hop hjo⟩
+  · intro p op hbd hop hc
+    exact (ht p op hbd hop).2.1 hc
+  · intro p op hbd hop hc
+    have hfo : isFreeOp op.toNat = true := by rcases hc with h | h | h <;> rw [h] <;> rfl
+    have hw1 : operandWidths op.toNat = [1] := by rcases hc with h | h | h <;> rw [h] <;> rfl
+    exact ((ht p op hbd hop).2.2.1 1 [] hw1).1 hfo
+  · intro p op hbd hop hc
+    have hw1 : operandWidths op.toNat = [1] := by rw [hc]; rfl
+    exact ((ht p op hbd hop).2.2.1 1 [] hw1).2.1 hc
+  · intro p op hbd hop hc
+    have hgo : isGlobalOp op.toNat = true := by rcases hc with h | h <;> rw [h] <;> rfl
+    have hw1 : operandWidths op.toNat = [2] := by rcases hc with h | h <;> rw [h] <;> rfl
+    exact ((ht p op hbd hop).2.2.1 2 [] hw1).2.2.1 hgo
+  · intro p op hbd hop hc
+    have hw1 : operandWidths op.toNat = [2] := by rw [hc]; rfl
+    have := (ht p op hbd hop).2.2.1 2 [] hw1
+    exact ⟨this.2.2.2.1 (by rw [hc]; rfl), this.2.2.2.2 hc⟩
+  · intro p op hbd hop hc
+    exact (ht p op hbd hop).2.2.2 hc
+
+/-- Well-formedness of returned bytecode: the main function has at most `maxNumLocals` (256) locals
+    and is well formed without free variables; every compiled function in the constant pool has at
+    most 256 locals and is well formed for some number of free variables (the number every CLOSURE
+    naming it supplies, by `WFFn.closure`; 0 if it is loaded by CONSTANT, by `WFFn.const`). -/
+def WF (bc : Bytecode) : Prop :=
+  bc.main.numLocals ≤ maxNumLocals ∧ WFFn bc.constants 0 bc.main ∧
+  ∀ g, Const.fn g ∈ bc.constants.toList → g.numLocals ≤ 256 ∧ ∃ nf, WFFn bc.constants nf g
+
+/-- **the bytecode returned by Compile is well formed** (`WF`, over main and every function constant):
+    streams decode; every jump target is an instruction start strictly inside its function, the
+    last instruction is RETURN; SETUPTRY operands are instruction boundaries; free-variable, builtin,
+    global-name, constant and closure indices are in range and of the right kind; NumParams ≤
+    NumLocals ≤ 256.  (Not included: the local-slot index of GETLOCAL / SETLOCAL / DEFINELOCAL /
+    GETLOCALPTR — see `C05_full`.) -/
+theorem compile_wf (builtins : List (String × Nat)) (hb : BuiltinsOK builtins) (disabled : List String)
+    (file : List Stmt) (hok : okSs file = true) (bc : Bytecode) (h : compileFile builtins disabled file = .ok bc) :
+    WF bc := by
+  have hg := compileFile_sat builtins hb disabled file hok
+  rw [h] at hg
+  obtain ⟨h1, h2, h3⟩ := hg
+  refine ⟨h1, wfFn_of_finFn h2, ?_⟩
+  intro g hgm
+  obtain ⟨hl, nf, hf⟩ := h3 (.fn g) hgm g rfl
+  exact ⟨hl, nf, wfFn_of_finFn hf⟩
+
+/-- the slot operand of every local-variable instruction is below NumLocals -/
+def LocalsOK (f : CFn) : Prop :=
+  ∀ p op, Bd f.insts p → f.insts[p]? = some op →
+    (op.toNat = OpGetLocal ∨ op.toNat = OpSetLocal ∨ op.toNat = OpDefineLocal ∨ op.toNat = OpGetLocalPtr) →
+    readBE f.insts (p + 1) 1 < f.numLocals
+
+/-- the operands of every SETUPTRY are instruction starts strictly inside the stream (catch: or 0) -/
+def TryStrict (f : CFn) : Prop :=
+  ∀ p op, Bd f.insts p → f.insts[p]? = some op → op.toNat = OpSetupTry →
+    (readBE f.insts (p + 1) 4 = 0 ∨ Bd f.insts (readBE f.insts (p + 1) 4)) ∧ Bd f.insts (readBE f.insts (p + 5) 4)
+
+/-- The full statement: `compileFile` returns an error or bytecode that is well formed (`WF`) and in
+    which, for main and every function constant, local slots are below NumLocals (`LocalsOK`) and try
+    targets lie strictly inside (`TryStrict`); and the claim covers scanner, parser, optimizer and
+    module import.
+
+    Proved: `compile_no_panic` (the error side, for every AST) and `compile_wf` (`WF`).
+
+    Not proved — checked on real bytecode by the structural scan of stream `compilefuzz`:
+    `LocalsOK` (it does not hold for every AST: `DefineLocal(":array")` of a destructuring
+    assignment and the identifier of `catch` / `for-in` return an existing symbol of any scope and
+    its index is emitted as a local slot; excluding that needs identifier hygiene — no user symbol
+    named `:array` — and block-table facts the invariant does not carry), and `TryStrict` (proved is:
+    try targets are instruction boundaries).  Not modelled: scanner / parser / optimizer / imports. -/
 def C05_full : Prop :=
-  ∀ (builtins : List (String × Nat)) (disabled : List String) (file : List Stmt), okSs file = true →
+  ∀ (builtins : List (String × Nat)), BuiltinsOK builtins → ∀ (disabled : List String) (file : List Stmt),
+    okSs file = true →
     match compileFile builtins disabled file with
-    | .ok bc => WFMain bc ∧
-        (∀ p op, Bd bc.main.insts p → bc.main.insts[p]? = some op →
-          (op.toNat = OpGetGlobal ∨ op.toNat = OpSetGlobal) →
-          readBE bc.main.insts (p + 1) 2 < bc.constants.size) ∧
-        (∀ p op, Bd bc.main.insts p → bc.main.insts[p]? = some op →
-          (op.toNat = OpGetLocal ∨ op.toNat = OpSetLocal ∨ op.toNat = OpDefineLocal) →
-          readBE bc.main.insts (p + 1) 1 < bc.main.numLocals) ∧
-        (∀ p op, Bd bc.main.insts p → bc.main.insts[p]? = some op →
-          (op.toNat = OpJump ∨ op.toNat = OpJumpFalsy ∨ op.toNat = OpAndJump ∨ op.toNat = OpOrJump) →
-          Bd bc.main.insts (readBE bc.main.insts (p + 1) 4))
+    | .ok bc => WF bc ∧ LocalsOK bc.main ∧ TryStrict bc.main ∧
+        ∀ g, Const.fn g ∈ bc.constants.toList → LocalsOK g ∧ TryStrict g
     | .error e => ∀ m, e ≠ .panic m
+
+/-! ### what the VM's prologue needs of compiler output (C06) -/
+
+/-- `MainWF` — the hypothesis of the C06 theorems about `Run` (the prologue slices
+    `stack[:NumLocals]` and indexes `locals[NumParams-1]` outside `recover`) — holds for every VM
+    state into which compiler output is loaded with `SetBytecode`: `NumLocals ≤ 256 ≤ 2048` and
+    `NumParams ≤ NumLocals` by `compile_wf`. -/
+theorem compiled_main_wf (builtins : List (String × Nat)) (hb : BuiltinsOK builtins) (disabled : List String)
+    (file : List Stmt) (hok : okSs file = true) (bc : Bytecode) (h : compileFile builtins disabled file = .ok bc)
+    (vm : UgoVerif.VM.State) (oldN : Nat) (modules : Array UgoVerif.VM.V) :
+    UgoVerif.Proofs.VM.MainWF (UgoVerif.Eval.setBytecode vm bc.main oldN bc.constants modules) := by
+  have hwf := compile_wf builtins hb disabled file hok bc h
+  intro c free hget
+  simp only [UgoVerif.Eval.setBytecode, UgoVerif.Eval.allocFn] at hget ⊢
+  simp only [Array.getElem?_push_size, Option.some.injEq] at hget
+  injection hget with hc _
+  subst hc
+  simp [UgoVerif.Eval.codeOfCFn, UgoVerif.VM.stackSize]
+  have h1 := hwf.1
+  have h2 := hwf.2.1.params
+  unfold maxNumLocals at h1
+  omega
 
 end UgoVerif.Props.C05
